@@ -695,6 +695,10 @@ pub struct DataLine {
     pub section: &'static str,
     /// true for the `index ... value` lines of a section, false for defaults / counts / header
     pub entry: bool,
+    /// white space before the first token (right-aligned / indented files)
+    pub lead: String,
+    /// how many times the separator is repeated between tokens
+    pub sep_width: usize,
 }
 
 #[derive(Clone, Debug)]
@@ -709,10 +713,12 @@ impl PLine {
         match self {
             PLine::Comment(s) | PLine::Blank(s) => s.clone(),
             PLine::Data(d) => {
-                let mut s = String::new();
+                let mut s = d.lead.clone();
                 for (k, (_, t)) in d.toks.iter().enumerate() {
                     if k > 0 {
-                        s.push(d.sep);
+                        for _ in 0..d.sep_width.max(1) {
+                            s.push(d.sep);
+                        }
                     }
                     s.push_str(t);
                 }
@@ -739,6 +745,8 @@ pub struct Layout {
     /// 0 lower, 1 Capitalised, 2 UPPER
     pub sense_style: u8,
     pub final_newline: bool,
+    /// data lines may start with white space
+    pub indent: bool,
 }
 
 impl Layout {
@@ -758,6 +766,7 @@ impl Layout {
             lower_code: rng.chance(1, 3),
             sense_style: rng.below(3) as u8,
             final_newline: rng.chance(3, 4),
+            indent: rng.chance(2, 5),
         }
     }
     pub fn facets(&self) -> Vec<String> {
@@ -891,7 +900,14 @@ impl<'a> W<'a> {
                 }
             })
         };
-        self.lines.push(PLine::Data(DataLine { toks, trailing, sep, section, entry }));
+        // scalar lines (type code, sense, counts, defaults, constants - the reader takes their first token) may be
+        // indented or right-aligned and may separate trailing text by several blanks / tabs. The `index ... value`
+        // lines are kept single-separated and flush left: the reader splits them at every single white-space
+        // character (files of the QPLIB library are written that way); aligned entry lines are outside the
+        // quantifier's layout list and are not generated.
+        let lead = if !entry && self.layout.indent && self.rng.chance(1, 2) { (*self.rng.pick(&[" ", "   ", "\t", "        ", " \t"])).to_string() } else { String::new() };
+        let sep_width = if !entry && self.rng.chance(1, 5) { 2 + self.rng.usize_below(3) } else { 1 };
+        self.lines.push(PLine::Data(DataLine { toks, trailing, sep, section, entry, lead, sep_width }));
     }
     fn num(&mut self, v: f64) -> (TokKind, String) {
         (TokKind::Num, fmt_num(self.rng, v))
